@@ -164,6 +164,8 @@ class SpecMixin:
             return self.read_attr(st, v, node.args[1].value, node.args[2].value if len(node.args) > 2 else None)
         if nm == 'alloc0':
             return alloc0(to_ref(self.ev(node.args[0], st, fr)))
+        if nm == 'cint':
+            return self.coerce_ctype(self.ev(node.args[0], st, fr), 'int')
         if nm == 'to_int':
             v = to_real(self.ev(node.args[0], st, fr))
             return z3.ToInt(v)
